@@ -7,6 +7,7 @@ import (
 	"encoding/base64"
 	"encoding/hex"
 	"encoding/json"
+	"errors"
 	"fmt"
 	"strings"
 	"sync"
@@ -44,7 +45,20 @@ type c16Cfg struct {
 	CloseAt int `json:"closeat,omitempty"`
 	// User: 0 an ordinary user name, 1 the EMPTY user name, 2 a one-character user name (the secret is unchanged)
 	User int `json:"user,omitempty"`
+	// Refuse (smtp mode): the mechanism refuses to start on the CLIENT side — 1 = PLAIN / LOGIN made without permission
+	// to run unencrypted (the session is plain text, the server not localhost), 2 = PLAIN / LOGIN made for another host
+	// name, 3 = any mechanism wrapped so that its Start returns an error. Whatever the Client logs afterwards (NOOP,
+	// QUIT) must be logged normally.
+	Refuse int `json:"refuse,omitempty"`
 }
+
+// refusingAuth's Start fails before anything is sent.
+type refusingAuth struct{ inner smtp.Auth }
+
+func (refusingAuth) Start(*smtp.ServerInfo) (string, []byte, error) {
+	return "", nil, errors.New("mechanism not usable (injected)")
+}
+func (r refusingAuth) Next(b []byte, more bool) ([]byte, error) { return r.inner.Next(b, more) }
 
 // togglingAuth wraps a mechanism and switches the client's debug log on at a given step of the exchange.
 type togglingAuth struct {
@@ -235,9 +249,9 @@ func c16Exec(r *vf.Run, cfg c16Cfg, c *vf.Chooser) (keys, whats []string, contro
 			var a smtp.Auth
 			switch mech {
 			case "PLAIN":
-				a = smtp.PlainAuth("", c16User, secret, hx.Host, true)
+				a = smtp.PlainAuth("", c16User, secret, map[bool]string{false: hx.Host, true: "other.host.example"}[cfg.Refuse == 2], cfg.Refuse != 1)
 			case "LOGIN":
-				a = smtp.LoginAuth(c16User, secret, hx.Host, true)
+				a = smtp.LoginAuth(c16User, secret, map[bool]string{false: hx.Host, true: "other.host.example"}[cfg.Refuse == 2], cfg.Refuse != 1)
 			case "CRAM-MD5":
 				a = smtp.CRAMMD5Auth(c16User, secret)
 			case "XOAUTH2":
@@ -246,6 +260,9 @@ func c16Exec(r *vf.Run, cfg c16Cfg, c *vf.Chooser) (keys, whats []string, contro
 				a = smtp.ScramSHA1Auth(c16User, secret)
 			default:
 				a = smtp.ScramSHA256Auth(c16User, secret)
+			}
+			if cfg.Refuse == 3 {
+				a = refusingAuth{a}
 			}
 			var tg *togglingAuth
 			if cfg.Toggle > 0 {
@@ -417,7 +434,7 @@ func init() {
 	vf.Register(&vf.Check{
 		ID: "C16", Title: "authentication secrets never reach the debug log",
 		Run: func(r *vf.Run) {
-			r.SetRule("mechanism {PLAIN, LOGIN, CRAM-MD5, XOAUTH2, SCRAM-SHA-1, SCRAM-SHA-256, SCRAM-SHA-256-PLUS over real TLS} × user name {ordinary, empty, one character} × 5 marker credentials (base64 padding 0/1/2, '='/',', Unicode, '%' format verbs) × logger {custom capturing, log.New, log.NewJSON} × {debug only, debug+WithLogAuthData as scanner control} × entry {mail.Client dial+send (configured by options, or constructed with auth-data logging on and then configured through SetLogger / SetDebugLog / SetLogAuthData(false)), smtp.Client Auth then NOOP, smtp.Client Auth, Auth again, then NOOP; each smtp.Client entry with and without a preceding Hello call; debug logging off at the start of Auth and switched on inside the mechanism's Start / first Next / second Next; the smtp.Client closed by another party (Close or Quit) inside the mechanism's Start / first Next / second Next} × every server script over {conforming, 535, non-base64 challenge, extra challenge, empty challenge, drop, transport write failure on the next client line} at every AUTH step and at the EHLO that precedes AUTH {ok, write failure afterwards, 502 with HELO fallback} up to the deviation bound; the log (format, arguments, formatted line, raw output, decoded JSON msg) is scanned for the secret, its base64/hex/url-base64 forms and the exact SASL response; distinct by (configuration, script)")
+			r.SetRule("mechanism {PLAIN, LOGIN, CRAM-MD5, XOAUTH2, SCRAM-SHA-1, SCRAM-SHA-256, SCRAM-SHA-256-PLUS over real TLS} × user name {ordinary, empty, one character} × 5 marker credentials (base64 padding 0/1/2, '='/',', Unicode, '%' format verbs) × logger {custom capturing, log.New, log.NewJSON} × {debug only, debug+WithLogAuthData as scanner control} × entry {mail.Client dial+send (configured by options, or constructed with auth-data logging on and then configured through SetLogger / SetDebugLog / SetLogAuthData(false)), smtp.Client Auth then NOOP, smtp.Client Auth, Auth again, then NOOP; each smtp.Client entry with and without a preceding Hello call; debug logging off at the start of Auth and switched on inside the mechanism's Start / first Next / second Next; the smtp.Client closed by another party (Close or Quit) inside the mechanism's Start / first Next / second Next} × every server script over {conforming, 535, non-base64 challenge, extra challenge, empty challenge, drop, transport write failure on the next client line} at every AUTH step and at the EHLO that precedes AUTH {ok, write failure afterwards, 502 with HELO fallback} up to the deviation bound; the log (format, arguments, formatted line, raw output, decoded JSON msg) is scanned for the secret, its base64/hex/url-base64 forms and the exact SASL response; distinct by (configuration, script); mechanisms that refuse to start on the client side (unencrypted session, other host name, a failing Start) followed by further commands that must be logged normally")
 			r.Assume("user names are not secrets", "a server that echoes credentials in its own reply text is outside the alphabet")
 			bound := 3
 			if r.Thorough {
@@ -456,6 +473,12 @@ func init() {
 										cfgs = append(cfgs, c16Cfg{Mech: m, Cred: cr, Logger: lg, SMTP: true, CloseAt: ca})
 									}
 									cfgs = append(cfgs, c16Cfg{Mech: m, Cred: cr, Logger: lg, LogAuth: la, SMTP: sm, NoHello: true, Retry: true})
+									for rf := 1; rf <= 3; rf++ {
+										if rf < 3 && m > 1 {
+											continue // only PLAIN and LOGIN check the session and the host name themselves
+										}
+										cfgs = append(cfgs, c16Cfg{Mech: m, Cred: cr, Logger: lg, SMTP: true, Refuse: rf}, c16Cfg{Mech: m, Cred: cr, Logger: lg, SMTP: true, Refuse: rf, Retry: true})
+									}
 								}
 							}
 						}
